@@ -39,6 +39,7 @@ type Profile struct {
 	PhaseLen    int
 	UnknownPropPct int
 	FeeMultiplier  int64
+	AimPct         int  // chance per block that the block time is aimed at a pending maturity / jail expiry (+-1 s)
 	QueryHeavy     bool // reads are mostly /store/<name>/key queries over interesting keys and heights
 }
 
@@ -46,7 +47,7 @@ func DefaultProfile() Profile {
 	return Profile{
 		Name: "default", Blocks: 120, NEd: 10, NSecp: 3, GenesisVals: 4, MaxTx: 6,
 		W: map[string]int{"stake": 14, "unstake": 8, "unjail": 8, "send": 14, "govparam": 6, "dao": 5, "upgrade": 1, "acl": 2, "bytes": 4},
-		EvidencePct: 4, FatalEvPct: 0, OldEvPct: 0, AwardPct: 25, BurnPct: 8, ReadsPct: 10, ProbePct: 15, RestartPct: 0, HostilePct: 25,
+		AimPct: 10, EvidencePct: 4, FatalEvPct: 0, OldEvPct: 0, AwardPct: 25, BurnPct: 8, ReadsPct: 10, ProbePct: 15, RestartPct: 0, HostilePct: 25,
 		Steps: []int64{1, 1, 5, 30, 60, 600}, MissLevels: []int{0, 0, 0, 5, 40, 70, 100}, PhaseLen: 25, UnknownPropPct: 5, FeeMultiplier: 1,
 	}
 }
@@ -87,6 +88,7 @@ type World struct {
 	Strangers []sdk.Address
 	OwnerOf map[string]*Actor // harness belief of ACL (only used to *choose* senders)
 	Tomb map[string]bool
+	forceUnjail []string // validators whose jail expiry the block time was aimed at: they try to unjail in this block
 }
 
 func NewWorld(seed uint64, p Profile, idx *TxIndex) *World {
@@ -230,21 +232,35 @@ func (w *World) beginSpec() *BeginSpec {
 	h := e.H + 1
 	step := w.P.Steps[w.R.Intn(len(w.P.Steps))]
 	cp := ParamsOf(w.View())
-	if w.R.Chance(6) {
+	w.forceUnjail = nil
+	if w.R.Chance(w.P.AimPct) {
 		// land exactly on / next to a pending maturity or jail expiry
 		var targets []time.Time
+		var who []string
 		for _, q := range w.View().Queue {
 			targets = append(targets, q.Time)
+			who = append(who, "")
 		}
-		for _, s := range w.View().Sign {
-			if s.JailedUntil.After(w.Now) && s.JailedUntil.Before(w.Now.Add(48*time.Hour)) {
+		var sa []string
+		for a := range w.View().Sign {
+			sa = append(sa, a)
+		}
+		sort.Strings(sa)
+		for _, a := range sa {
+			s := w.View().Sign[a]
+			if v, ok := w.View().Vals[a]; ok && v.Jailed && !s.Tombstoned && s.JailedUntil.After(w.Now) && s.JailedUntil.Before(w.Now.Add(48*time.Hour)) {
 				targets = append(targets, s.JailedUntil)
+				who = append(who, a)
 			}
 		}
 		if len(targets) > 0 {
-			t := targets[w.R.Intn(len(targets))].Add(time.Duration(w.R.PickI64(-1, 0, 0, 1)) * time.Second)
+			i := w.R.Intn(len(targets))
+			t := targets[i].Add(time.Duration(w.R.PickI64(-1, 0, 0, 1)) * time.Second)
 			if t.After(w.Now) {
 				step = int64(t.Sub(w.Now) / time.Second)
+				if who[i] != "" {
+					w.forceUnjail = append(w.forceUnjail, who[i])
+				}
 			}
 		}
 	} else if w.R.Chance(3) && cp.Unstaking > 0 {
@@ -530,6 +546,9 @@ func (w *World) Block() bool {
 		}
 	}
 	ntx := w.R.Intn(w.P.MaxTx + 1)
+	if len(w.forceUnjail) > ntx {
+		ntx = len(w.forceUnjail)
+	}
 	for i := 0; i < ntx && !e.Dead; i++ {
 		bz, label, spec := w.NextTx()
 		if bz == nil {
